@@ -40,15 +40,64 @@ def run_many(jobs, procs=16):
         return pool.map(_run, jobs, chunksize=max(1, len(jobs) // (procs * 4)))
 
 
-def batch(jobs, scratch, shards=16):
+CHUNK = 400        # scenarios run and judged at a time: a thorough tier's traces do not all fit in memory at once
+
+
+def _slim(r):
+    """after its verdict is in, a run keeps the head of its trace and the context of each line where a clause
+    was false (`ctx`: line -> rendered lines around it), not the whole trace"""
+    from harness import checklib
+    tr = r.get("trace")
+    if tr is None:
+        return r
+    r["nlines"] = len(tr)
+    v = r.get("verdict")
+    if v is not None:
+        ctx = {}
+        for c, line, kf in v.get("bad", []):
+            if line not in ctx and len(ctx) < 8:
+                ctx[line] = checklib.short_trace(tr, line - 1)
+        r["ctx"] = ctx
+        r["trace"] = tr[:30]
+    return r
+
+
+def batch(jobs, scratch, shards=16, chunk=CHUNK):
     from harness import tlcrun
-    t0 = time.time()
-    runs = run_many(jobs)
-    t1 = time.time()
-    ok = [r for r in runs if r.get("trace") is not None]
-    verdicts, st = tlcrun.monitor_traces([r["trace"] for r in ok], scratch, shards=shards)
-    for r, v in zip(ok, verdicts):
-        r["verdict"] = v
-    st["gen_wall"] = t1 - t0
-    st["lines"] = sum(len(r["trace"]) for r in ok)
-    return runs, st
+    runs, tot = [], {"states": 0, "errors": [], "wall": 0.0, "gen_wall": 0.0, "lines": 0}
+    for a in range(0, len(jobs), chunk):
+        part = jobs[a:a + chunk]
+        t0 = time.time()
+        rs = run_many(part)
+        t1 = time.time()
+        ok = [r for r in rs if r.get("trace") is not None]
+        if ok:
+            verdicts, st = tlcrun.monitor_traces([r["trace"] for r in ok], scratch, shards=shards)
+            for r, v in zip(ok, verdicts):
+                r["verdict"] = v
+            tot["states"] += st["states"]
+            tot["errors"] += st["errors"]
+            tot["wall"] += st.get("wall", 0.0)
+        tot["gen_wall"] += t1 - t0
+        tot["lines"] += sum(len(r["trace"]) for r in ok)
+        runs += [_slim(r) for r in rs]
+    return runs, tot
+
+
+def conform(jobs, scratch, chunk=CHUNK):
+    """strict pass over scenario jobs in chunks -> (list of (run without trace, (matched, of) or None), stats)"""
+    from harness import tlcrun
+    out, tot = [], {"states": 0, "errors": [], "wall": 0.0}
+    for a in range(0, len(jobs), chunk):
+        rs = run_many(jobs[a:a + chunk])
+        ok = [r for r in rs if r.get("trace") is not None]
+        if ok:
+            res, st = tlcrun.conform_traces([r["trace"] for r in ok], scratch)
+            tot["states"] += st["states"]
+            tot["errors"] += st["errors"]
+            tot["wall"] += st.get("wall", 0.0)
+            for r, c in zip(ok, res):
+                r["nlines"] = len(r["trace"])
+                r["trace"] = None
+                out.append((r, c))
+    return out, tot
